@@ -55,13 +55,17 @@ type Summary struct {
 }
 
 type Mismatch struct {
-	Sig    string `json:"sig"`    // stable identification of the failing input
-	Detail any    `json:"detail"` // want / got / input
+	Sig    string          `json:"sig"`           // stable identification of the failing input
+	Detail any             `json:"detail"`        // want / got / input
+	Vec    json.RawMessage `json:"vec,omitempty"` // the input row, for --replay
 }
+
+// curVec is the raw vector being replayed (attached to mismatches so that a violation can be re-run alone).
+var curVec json.RawMessage
 
 func (s *Summary) miss(sig string, detail any) {
 	if len(s.Mismatches) < 200 {
-		s.Mismatches = append(s.Mismatches, Mismatch{sig, detail})
+		s.Mismatches = append(s.Mismatches, Mismatch{sig, detail, curVec})
 	} else {
 		if s.Extra == nil {
 			s.Extra = map[string]any{}
@@ -93,6 +97,7 @@ func readNDJSON(path string, each func(raw json.RawMessage) error) error {
 		}
 		cp := make([]byte, len(b))
 		copy(cp, b)
+		curVec = cp
 		if err := each(cp); err != nil {
 			return err
 		}
